@@ -358,8 +358,7 @@ def r4(repo, res):
             if isinstance(st, (ast.Assign, ast.AnnAssign)):
                 v = st.value
                 t = st.targets[0] if isinstance(st, ast.Assign) else st.target
-                if isinstance(t, ast.Name) and isinstance(v, (ast.Dict, ast.List, ast.Set, ast.ListComp, ast.DictComp)) \
-                        and not t.id.isupper():
+                if isinstance(t, ast.Name) and isinstance(v, (ast.Dict, ast.List, ast.Set, ast.ListComp, ast.DictComp)):
                     mutable_globals.add(t.id)
                 if isinstance(t, ast.Name) and isinstance(v, ast.Call) and call_name(v) in ("dict", "list", "set", "defaultdict"):
                     mutable_globals.add(t.id)
@@ -564,6 +563,8 @@ MUTANTS = [
          new="    if json[gene.name][\"cn\"][\"data\"] and not result:\n        log.debug(\"[cn] solution= []\")"),
     dict(name="R4 identifier derived from the debug alias", module="major", expect="C14.R4",
          old="    debug_info[\"id\"] = identifier\n", new="    debug_info[\"id\"] = identifier\n    identifier = len(debug_info)\n"),
+    dict(name="R4 module-level cache written from a function (seeded C07_1 shape)", module="profile", expect="C14.R4",
+         old="class Profile:\n", new="_CACHE = {}\n\n\ndef _cached(path):\n    if path not in _CACHE:\n        _CACHE[path] = path\n    return _CACHE[path]\n\n\nclass Profile:\n"),
     dict(name="R5 failing gene aborts the run", module="genotype", expect="C14.R5",
          old="            except AldyException as ex:\n                log.error(f\"Failed gene {a.upper()}\")",
          new="            except AldyException as ex:\n                raise\n                log.error(f\"Failed gene {a.upper()}\")"),
